@@ -48,7 +48,7 @@ ENV["RUSTFLAGS"] = "--cfg verif_replay -A warnings"    # same flags as kc.py's n
 # (dim, max_size); the completeness query expands s! bijections per output of size s
 TIERS = {
     "quick": [(1, 7), (2, 6), (3, 5), (4, 4)],
-    "thorough": [(1, 9), (2, 7), (3, 6), (4, 5), (5, 4)],
+    "thorough": [(1, 8), (2, 7), (3, 6), (4, 5), (5, 4)],
 }
 SOLVER_TIMEOUT = {"quick": 300, "thorough": 3000}
 BV = 4      # bits per chamber number (sizes <= 7)
